@@ -97,6 +97,19 @@ def run_case(case):
                 for i, nm in enumerate(case["seq"])]
         in_atoms = atoms
         opts = list(s3.OPTION_SETS[case.get("opt", "default")]) + [f"--ff={case['ff']}"]
+    elif case.get("kind") == "complex":
+        # peptide + MOL2 ligand + other hetero groups, some sharing atom
+        # names with the ligand (builders of C16)
+        from . import c16
+
+        mol = c16.load_mol(c16.COMPLEX_LIGANDS[case["ligand"]])
+        names = c16.make_names(mol, case["naming"])
+        text = c16.complex_pdb(mol, names, case["extras"])
+        files = {"lig.mol2": c16.write_mol2(
+            mol, tuple(range(mol.n)), names,
+            "asis" if mol.orig_names else "sorted")}
+        info, in_atoms = [], []
+        opts = [f"--ff={case['ff']}", "--ligand=@lig.mol2"]
     else:
         built = s3.build_case(case)
         if built is None:
@@ -105,6 +118,8 @@ def run_case(case):
             return res
         text, info, in_atoms = built
         opts = list(s3.OPTION_SETS[case["opt"]]) + [f"--ff={case['ff']}"]
+    if case.get("kind") != "complex":
+        files = None
     optname = case.get("opt", "default")
     by_seq = {i["res_seq"]: i for i in info}
     viol = []
@@ -141,12 +156,36 @@ def run_case(case):
             if meth in cls.__dict__:
                 specs.append((cls, meth, mk(cls, meth)))
     with pipeline.monitors(specs), s3.torsion_drive(case, info):
-        r = pipeline.run(text, opts)
+        r = pipeline.run(text, opts, files=files)
     ev = res["events"]
     if not r.ok:
         ev[f"run-failed:{r.exc[0]}"] = 1
         return res
     ev["runs-ok"] = 1
+    if case.get("kind") == "complex":
+        # every atom of the final model is written or reported
+        tag = "complex:" + "+".join(case["extras"] or ["none"])
+        missed_ids = {id(a) for a in (r.missed or [])}
+        written = {}
+        for a in pqr_ref.parse(r.pqr_text, keep_chain=False):
+            k = (a["name"], a["res_seq"], a["xs"].strip(), a["ys"].strip())
+            written[k] = written.get(k, 0) + 1
+        for a in r.bm.atoms:
+            k = (a.name, a.res_seq, f"{a.x:.3f}", f"{a.y:.3f}")
+            if not written.get(k) and id(a) not in missed_ids:
+                viol.append((f"C03/{tag}/atom-neither-written-nor-reported/"
+                             f"{a.res_name}", {"atom": a.name,
+                                               "res_seq": a.res_seq}))
+            if written.get(k, 0) > 1:
+                viol.append((f"C03/{tag}/atom-written-twice/{a.res_name}",
+                             {"atom": a.name, "res_seq": a.res_seq}))
+        res["nontrivial"] = engine._h(case)
+        seen = set()
+        for sig, detail in viol:
+            if sig not in seen:
+                seen.add(sig)
+                res["violations"].append({"sig": sig, "detail": detail})
+        return res
     if case.get("kind") == "layout":
         # chain layouts: residue numbers repeat across chains, so the oracle
         # is global: with --clean / --nodebump --noopt coordinates are exact,
@@ -399,6 +438,13 @@ def enumerate_cases(tier, seed):
             for opt in ("clean", "nodebump_noopt"):
                 cases.append({"kind": "layout", "layout": layout, "x": x,
                               "ff": "AMBER", "opt": opt})
+    for extras in ([], ["XYZ"], ["XYQ"], ["W1", "XYZ", "XYQ", "ZN"]):
+        for lig in ("methanol", "acetate", "ethanol.mol2"):
+            for naming in ("elem-index", "water-like"):
+                for ff in ("AMBER", "PARSE"):
+                    cases.append({"kind": "complex", "ligand": lig,
+                                  "naming": naming, "extras": extras,
+                                  "ff": ff, "env": []})
     strands = [(["DA", "DT", "DG", "DC"], "legacy"),
                (["RA", "RU", "RG", "RC"], "legacy"),
                (["DC", "DA", "DT"], "modern"), (["RG", "RU", "RC"], "modern"),
